@@ -553,6 +553,14 @@ def _progress_stmt(st, counters, shrink):
             and isinstance(st.op, ast.Add):
         v = pat.const_value(st.value)
         return v is not None and v > 0
+    # the same step spelled `i = i + 1` / `i = 1 + i`
+    if isinstance(st, ast.Assign) and len(st.targets) == 1 and isinstance(st.targets[0], ast.Name) \
+            and st.targets[0].id in counters and isinstance(st.value, ast.BinOp) and isinstance(st.value.op, ast.Add):
+        l, r, name = st.value.left, st.value.right, st.targets[0].id
+        for a, b in ((l, r), (r, l)):
+            v = pat.const_value(b)
+            if pat.is_name(a, name) and v is not None and v > 0:
+                return True
     if isinstance(st, ast.Delete) and any(isinstance(t, ast.Subscript) and pat.root_name(t.value) in shrink
                                           for t in st.targets):
         return True
@@ -712,6 +720,27 @@ def loop_witness(fn, loop, ctx=None):
     shrink |= truthy_names(test) & removed_from
     called = {n.func.id for n in ast.walk(test) if isinstance(n, ast.Call) and isinstance(n.func, ast.Name)}
     counters = names - shrink - called
+    # (c0) visited-set growth spelled in the loop test: `while X not in V:` whose body first records X in V (before
+    #      anything X is made of is reassigned): every iteration adds a new element of a finite index set to V
+    if isinstance(test, ast.Compare) and len(test.ops) == 1 and isinstance(test.ops[0], ast.NotIn) \
+            and isinstance(test.comparators[0], ast.Name):
+        V, key = test.comparators[0].id, ast.dump(test.left)
+        parts = {n.id for n in ast.walk(test.left) if isinstance(n, ast.Name)}
+        for st in loop.body:
+            if isinstance(st, ast.Expr) and isinstance(st.value, ast.Call) and isinstance(st.value.func, ast.Attribute) \
+                    and st.value.func.attr in ("append", "add") and pat.is_name(st.value.func.value, V) \
+                    and st.value.args and ast.dump(st.value.args[0]) == key:
+                shrinks_v = any(isinstance(x, ast.Call) and isinstance(x.func, ast.Attribute)
+                                and x.func.attr in ("pop", "remove", "clear", "discard") and pat.root_name(x.func.value) == V
+                                for x in ast.walk(loop)) or any(
+                    isinstance(x, ast.Assign) and any(pat.is_name(t, V) for t in x.targets) for x in ast.walk(loop))
+                if not shrinks_v:
+                    return "visited-set", f"each iteration adds a new element of a finite index set to `{V}`"
+                break
+            if any(isinstance(x, ast.Name) and isinstance(x.ctx, ast.Store) and x.id in parts for x in ast.walk(st)):
+                break
+            if isinstance(st, (ast.If, ast.For, ast.While, ast.Try, ast.With)):
+                break
     const_true = isinstance(test, ast.Constant) and test.value is True
     if const_true:
         # (c1) visited-set growth: `if X in V: break` ... `V.append(X)` on the straight path
@@ -792,7 +821,7 @@ def _filled_only_from_pops(loop, name, shrink):
 
 def r01_4(ctx):
     out = Outcome("R01.4", "termination: every while loop has a ranking witness (counter to a bound, shrinking "
-                           "collection, visited-set growth) and every recursion decreases its argument", floor=11)
+                           "collection, visited-set growth) and every recursion decreases its argument", floor=4)
     for q, fn in sorted(ctx.model.funcs.items()):
         for n in ast.walk(fn.node):
             if isinstance(n, ast.While):
